@@ -78,4 +78,42 @@ pub const SIBLINGS: &[&[&str]] = &[
         "4k3/8/8/8/2pPp3/8/8/4K3 b - - 0 1",
         "4k3/8/8/8/2pPp3/8/8/4K3 w - - 0 1",
     ],
+    // positions in which the engine's own choice at depth 1-3 is a castling move (found with `rbsim findcastle`);
+    // the first entry holds the right that move needs, the following ones lack it
+    &[
+        "r3k2r/pppq1ppp/2npbn2/2b1p3/2B1P3/2NPBN2/PPPQ1PPP/R3K2R w KQkq - 0 1",
+        "r3k2r/pppq1ppp/2npbn2/2b1p3/2B1P3/2NPBN2/PPPQ1PPP/R3K2R w Qkq - 0 1",
+        "r3k2r/pppq1ppp/2npbn2/2b1p3/2B1P3/2NPBN2/PPPQ1PPP/R3K2R w kq - 0 1",
+        "r3k2r/pppq1ppp/2npbn2/2b1p3/2B1P3/2NPBN2/PPPQ1PPP/R3K2R w - - 0 1",
+    ],
+    &[
+        "r3k2r/pppq1ppp/2npbn2/2b1p3/2B1P3/2NPBN2/PPP1QPPP/R3K2R b KQkq - 1 1",
+        "r3k2r/pppq1ppp/2npbn2/2b1p3/2B1P3/2NPBN2/PPP1QPPP/R3K2R b KQq - 1 1",
+        "r3k2r/pppq1ppp/2npbn2/2b1p3/2B1P3/2NPBN2/PPP1QPPP/R3K2R b KQ - 1 1",
+        "r3k2r/pppq1ppp/2npbn2/2b1p3/2B1P3/2NPBN2/PPP1QPPP/R3K2R b - - 1 1",
+    ],
+    &[
+        "r3k1r1/1pp2ppp/p7/2Pp2P1/1P2p3/8/P2PPP1P/2R1K2R b Kq - 0 6",
+        "r3k1r1/1pp2ppp/p7/2Pp2P1/1P2p3/8/P2PPP1P/2R1K2R b K - 0 6",
+        "r3k1r1/1pp2ppp/p7/2Pp2P1/1P2p3/8/P2PPP1P/2R1K2R b - - 0 6",
+    ],
+    &[
+        "2r1k2r/p2ppp1p/8/1p2P3/2pP2p1/P7/1PP2PPP/R3K1R1 w Qk - 0 6",
+        "2r1k2r/p2ppp1p/8/1p2P3/2pP2p1/P7/1PP2PPP/R3K1R1 w k - 0 6",
+        "2r1k2r/p2ppp1p/8/1p2P3/2pP2p1/P7/1PP2PPP/R3K1R1 w - - 0 6",
+    ],
+    &[
+        "r3k3/1p3pp1/2p5/8/8/1P5r/2PK1PPR/R7 b q - 4 4",
+        "r3k3/1p3pp1/2p5/8/8/1P5r/2PK1PPR/R7 b - - 4 4",
+    ],
+    &[
+        "r3k2r/ppp1pppp/8/3p4/3P4/8/PPP1PPPP/R3K1R1 b Qkq - 1 2",
+        "r3k2r/ppp1pppp/8/3p4/3P4/8/PPP1PPPP/R3K1R1 b Qq - 1 2",
+        "r3k2r/ppp1pppp/8/3p4/3P4/8/PPP1PPPP/R3K1R1 b Q - 1 2",
+    ],
+    // side to move only
+    &[
+        "r1bqk1nr/pppp1ppp/2n5/2b1p3/2B1P3/5N2/PPPP1PPP/RNBQK2R w KQkq - 4 4",
+        "r1bqk1nr/pppp1ppp/2n5/2b1p3/2B1P3/5N2/PPPP1PPP/RNBQK2R b KQkq - 4 4",
+    ],
 ];
